@@ -42,6 +42,9 @@ CLAIMED = {
   text="PARTIAL. Proved in Coq over Report.v/Cli.v: the console summary table lists exactly the rules the structured report lists as compliant / not_compliant / not_applicable (distinct names); SARIF carries one result per reported failing check (message_count = leaves + empty-block entries of the report tree); when every rules file parses the exit status is the same in the plain, JSON/YAML/SARIF and JUnit code paths; and the mixed case (a parse error together with a FAIL) is genuinely mode- and order-dependent (19 / 5 / last-non-zero), stated as a theorem. Report.v and Cli.v are tied to the code by the C09 and C06 correspondences. NOT provable here: that the bytes serde_json / serde_yaml / quick_xml emit are well-formed and that JSON and YAML denote the same data - this is observed by parsing every output back. Monitor: the statement's cross product on generated (rules, data): console summary with -S all/pass/fail/skip/none, -v, -p, -o json, -o yaml, --structured json/yaml/sarif/junit, stdin, --payload and run_checks (verbose and not): PASS/FAIL/SKIP rule sets, file status and exit code extracted from every rendering must agree; SARIF result count and JUnit marks are checked against the structured report.",
   note="tie = C09 + C06 correspondences; python parsers of each rendering. Known finding (recorded, not repaired): validate with one unparsable and one failing rules file exits 19 (JSON/YAML/SARIF), 5 (JUnit) or the last non-zero code (plain) - the statement of C06 leaves this case at 'non-zero', C07's 'same exit code' does not hold there; repairing it means choosing a precedence, i.e. changing documented-by-behaviour exit codes. Fixed in /repo: run_checks truncation of reports over 8 KiB.",
   technique="machine-checked proof in Coq over the report/exit-code models + cross-format differential on the real binary (parsing every output back)"),
+ 'C04': dict(
+  text="Coq theorems over SEval's combinators for bodies of ANY shape: for clauses that are state-transparent (one status in every state, state handed back unchanged) permuting the lines of a rule/block/filter body, permuting the alternatives of an or-line and repeating a line leave the status unchanged; the status combinators are permutation- and duplication-invariant for status lists of any length; the definitions found for a rule name do not depend on where other rules are written; the file status is a permutation-invariant fold; a cached rule status is exactly what every later reference receives. PARTIAL: the hypothesis `transparent` is not discharged for memoised variables and cached rule statuses (that is the SEval->PEval bridge of DESIGN.md 2.3, not finished). That part - the history dimension of the property - is carried by the monitor: every generated capture-free, acyclic program (forward references, shared variables, references to already evaluated rules on purpose) is evaluated by the implementation under every permutation (exhaustive up to 4 items, sampled beyond) of lines, alternatives and rules, with a repeated line and with a rule duplicated under a new name, and all rule and file statuses must agree unless an ordering errs. Tie: SEval vs implementation (status, error kind, record tree) on the same programs.",
+  note="tie = hook eval_dump + python glue; programs with key captures are excluded (captures append to the root memo: recorded deviation)."),
 }
 
 NOT_CLAIMED = {}
